@@ -19,13 +19,16 @@ cd "$ROOT/harness" || exit 4
 if [ -f "$VERIF_REPO/go.sum" ] && ! sort -u go.sum "$VERIF_REPO/go.sum" | cmp -s - <(sort -u go.sum); then
   sort -u go.sum "$VERIF_REPO/go.sum" -o go.sum
 fi
+ALTBIN=""
 if [ "$VERIF_REPO" != "/repo" ]; then
   export VERIF_EVIDENCE_DIR="$BIN/evidence-scratch"   # never overwrite /verif/evidence from a scratch tree
+  # private binaries, so that a run against a scratch tree never swaps the binary under a check running against /repo
+  ALTBIN="$BIN/alt.$$"; mkdir -p "$ALTBIN"; BIN="$ALTBIN"
   # run against another tree (self-validation on scratch copies): private modfile
   MODF="$BIN/go.alt.$$.mod"
   sed "s#=> /repo#=> $VERIF_REPO#" go.mod > "$MODF"; cp go.sum "${MODF%.mod}.sum"
   MODARG="-modfile=$MODF"
-  trap 'rm -f "$MODF" "${MODF%.mod}.sum"' EXIT
+  trap 'rm -rf "$MODF" "${MODF%.mod}.sum" "$ALTBIN"' EXIT
 else
   MODARG=""
 fi
@@ -36,7 +39,7 @@ build() { # build <output> <extra go build flags...>
   fi
 }
 if [ "${1:-}" = "--replay" ]; then
-  build "$BIN/verif"; exec "$BIN/verif" --replay "${REPLAY_FILE:-$2}"
+  build "$BIN/verif"; "$BIN/verif" --replay "${REPLAY_FILE:-$2}"; exit $?
 fi
 ID="${1:?usage: run.sh <ID> <quick|thorough>}"; TIER="${2:-quick}"
 # fingerprint of the tree under test: a verdict is only meaningful if every binary was built from the same tree
@@ -49,7 +52,7 @@ if [ "$ID" = "C14" ]; then
   build "$VERIF_BIN_RACE" -race
   # yield-point pass on a scratch copy of the current tree (outside /repo and /verif), removed right after the build
   SCR="$(mktemp -d /tmp/verif-instr.XXXXXX)"
-  trap 'rm -rf "$SCR" "${MODF:-}" "${MODF:+${MODF%.mod}.sum}"' EXIT
+  trap 'rm -rf "$SCR" "${MODF:-}" "${MODF:+${MODF%.mod}.sum}" ${ALTBIN:+"$ALTBIN"}' EXIT
   PTS="$("$BIN/verif" instr "$VERIF_REPO" "$SCR")" || { echo "BROKEN: yield-point pass failed: $PTS" >&2; exit 4; }
   export VERIF_INSTR_POINTS="$PTS"
   IMOD="$BIN/go.instr.$$.mod"
